@@ -23,5 +23,7 @@ theorem verdict : (classify Generated.factsC19).Sound (Holds (cfgOf Generated.fa
 #print axioms holds_partial
 #print axioms holds_of_no_findings
 #print axioms refutes_of_findings
+#print axioms SubRace.sending_after_store
+#print axioms SubRace.missed_when_checked_first
 
 end Hv.C19
